@@ -607,6 +607,19 @@ def run_repeatable(case):
     base = iter(list(items))
   elif kind == 'map':
     base = map(lambda x: x, gen())
+  elif kind == 'varying_iterable':
+    # An iterable (not an iterator, not a builtin container) whose successive
+    # iter() calls yield DIFFERENT items -- like an unseeded shuffled view or a
+    # streaming reader.  "Replays exactly the items of its first pass" is only
+    # observable on such a base.
+    class Varying:
+      def __init__(self):
+        self.calls = 0
+      def __iter__(self):
+        self.calls += 1
+        shift = self.calls - 1
+        return iter(items if shift == 0 else [('again', shift, x) for x in items])
+    base = Varying()
   else:
     raise ValueError(kind)
   it = fedjax.RepeatableIterator(base)
@@ -816,7 +829,7 @@ def shuffle_repeat_cases(draw, tier):
 
 
 REP_KINDS = ['list', 'tuple', 'str', 'bytes', 'dict', 'range', 'generator',
-             'iterator', 'map']
+             'iterator', 'map', 'varying_iterable', 'varying_iterable']
 
 
 @st.composite
